@@ -268,7 +268,7 @@ int run_case(Reader& r, bool& nontrivial, std::string& desc) {
     int n = 1 + (int)r.below(24);
     int mode = (int)r.below(6);          // 0..3 free scripts, 4/5 uniform program: every test carries the same script (long runs of one failing kind)
     bool uniform = mode >= 4; TestSpec proto;
-    bool any_throw = false;
+    bool any_throw = false; uint32_t helper_mask = 0;
     auto gen_script = [&](TestSpec& s) {
         for (int ph = 0; ph < 3; ph++) {
             int k = (int)r.below(5);
@@ -291,6 +291,9 @@ int run_case(Reader& r, bool& nontrivial, std::string& desc) {
         if (!uniform) gen_script(s);
         int ln = s.line + 10;
         for (int ph = 0; ph < 3; ph++) for (auto& a : s.phase[ph]) { a.line = ln++; if (is_throw(a.act)) any_throw = true; }
+        // now and then a check sits in a helper function above the test (a line before the test's own line: the two-location print form)
+        if (!uniform || t == 0) helper_mask = r.below(4) == 1 ? r.below(4096) : 0;
+        { int i = 0; for (int ph = 0; ph < 3; ph++) for (auto& a : s.phase[ph]) { if ((helper_mask >> (i % 12)) & 1) { a.line = s.line - 1 - i; verif::cls("check-in-helper-function-above-the-test"); } i++; } }
         g_prog.push_back(s);
     }
     n = (int)g_prog.size();
